@@ -25,19 +25,31 @@ def augment_exception_message_and_reraise(exception, message):
     """Acts as a proxy for an exception with an augmented message."""
     __module__ = type(exception).__module__
 
-    def __init__(self):
+    def __init__(self, *args, **kwargs):
       pass
 
-    def __getattr__(self, attr_name):
+    def __getattribute__(self, attr_name):
+      # Everything but the machinery needed to raise the proxy is answered by the
+      # original exception, including attributes backed by slots of the exception
+      # type (`args`, `errno`, `value`, ...), which `__getattr__` never sees.
+      if attr_name.startswith('__') or attr_name == 'with_traceback':
+        return object.__getattribute__(self, attr_name)
       return getattr(exception, attr_name)
 
     def __str__(self):
       return str(exception) + message
 
   ExceptionProxy.__name__ = type(exception).__name__
-
-  proxy = ExceptionProxy()
   ExceptionProxy.__qualname__ = type(exception).__qualname__
+
+  try:
+    proxy = ExceptionProxy.__new__(ExceptionProxy, *exception.args)
+  except TypeError:
+    try:
+      proxy = BaseException.__new__(ExceptionProxy)
+    except TypeError:
+      raise exception  # Can't build a proxy; keep the original exception.
+  proxy.args = exception.args
   raise proxy.with_traceback(exception.__traceback__)
 
 
